@@ -46,7 +46,7 @@ def registry():
             ],
             design_ref="DESIGN.md §5, §7 C03",
             rule=(
-                "memsim: seeded access histories (<=100 ops: R/W of 1/2/4 bytes, counted/uncounted, preload, reset, "
+                "memsim: seeded access histories (<=100 ops, 0.5 % marathons of 260-4400 ops: R/W of 1/2/4 bytes, counted/uncounted, preload, reset, "
                 "inspect; F-access faults: word-crossing, below 0x4000, wrapping past 2^32, negative, >=2^32) against "
                 "WriteBack/WriteThrough systems of random tiny geometries; every read compared with a byte map, every "
                 "must-reject access must raise and leave the logical content unchanged, final sweep reads every touched "
@@ -467,46 +467,46 @@ def registry():
     LEVEL = {
         "C02": ("Exploration by deterministic simulation: ~9e4 (quick) / ~1.5e6 (thorough) seeded programs, each run tick by tick in five-stage mode against the "
                 "sequential single-cycle run of the same code (retire order and value at every retirement, final state, fault address/state, termination). Sampling, "
-                "not enumeration: a clean batch is evidence, not proof. Sensitivity measured: plus ~5e3 / 9e4 assembler texts through the real parser in both modes. 8/8 hand-written pipeline mutants and 17/18 independently seeded changes caught (the other one needs a deep copy of a running simulation).",
+                "not enumeration: a clean batch is evidence, not proof. Sensitivity measured: plus ~5e3 / 9e4 assembler texts through the real parser in both modes. A fifth of the long programs contain a loop of 130-1100 iterations (counts pass 256 / 1024 / 4096 within one run). 8/8 hand-written pipeline mutants and 20/21 independently seeded changes caught (the other one needs a deep copy of a running simulation).",
                 "Trusted: single-cycle mode as the reference for ALU semantics (C01 is not decided here), the IR->instruction builder, the tick recorder. Not compared: pc, flushes, stalls."),
         "C07": ("Exploration: retire tick of every dynamic instruction and total ticks of ~8.5e4 / ~1.4e6 programs compared with closed timing recurrences written from the "
-                "property's wording (independent of Pipeline/Stage), the n+4 family, and the per-step cycle identity in both modes. and ~4e3 / 7e4 assembler texts without and with caches (cycle identity). 3/3 mutants, 17/18 seeded changes caught (the other one needs a user replacing the metrics object).",
+                "property's wording (independent of Pipeline/Stage), the n+4 family, and the per-step cycle identity in both modes. and ~4e3 / 7e4 assembler texts without and with caches (cycle identity). 3/3 mutants, 20/21 seeded changes caught (the other one needs a user replacing the metrics object).",
                 "Trusted: the recurrences of DESIGN 4.5 (validated on the repaired tree: zero disagreements), miss counts per tick taken from the implementation's own counters."),
         "C08": ("Exploration: five-stage mode without hazard detection against a delayed-visibility register model (values from the repository's own behavior(), visibility "
                 "timing from the model) on ~4.5e4 / ~7e5 programs, about a quarter of which really observe stale values; nop-padded programs against single-cycle mode; a decoy "
-                "instance with opposite settings alive in 30% of runs. 2/2 mutants, 18/18 seeded changes caught.",
+                "instance with opposite settings alive in 30% of runs. 2/2 mutants, 21/21 seeded changes caught.",
                 "Trusted: the model of DESIGN 4.6; single-cycle mode for values."),
         "C03": ("Exploration: ~1.2e5 / ~1.8e6 seeded access histories with injected rejected/torn accesses on write-back and write-through caches of random tiny (and a few "
-                "huge-index) geometries against a byte map, plus ~2.5e4 / 4e5 programs in {single,five} x {cache off,on} and ~6e3 / 1e5 assembler texts through the real parser with the cache off and on. Found D2 (fixed). 2/2 mutants (and the two of C12), 18/18 seeded changes caught.",
+                "huge-index) geometries against a byte map, plus ~2.5e4 / 4e5 programs in {single,five} x {cache off,on} and ~6e3 / 1e5 assembler texts through the real parser with the cache off and on. 0.5 % of the histories are marathons of 260-4400 operations (one set taking every access, or hundreds of blocks). Found D2 (fixed). 2/2 mutants (and the two of C12), 21/21 seeded changes caught.",
                 "Trusted: the byte-map model; white-box reads of resident blocks and memory_file for the 'rejected access changes nothing' clause."),
         "C09": ("Exploration: counters, last-hit flag, residency and cycle delta compared with an independent reference cache after every accepted counted access of ~1e5 / "
-                "~1.5e6 histories; cross-mode counter equality and one-count-per-load/store on ~4e4 / 6e5 programs; assembler preloads and ~3e3 / 5e4 texts in both modes through the real parser. the inspected simulation's accounting against a never-inspected shadow. 3/3 mutants, 17/18 seeded changes caught (the other one changes residency after a rejected access, which the quantifier excludes).",
+                "~1.5e6 histories; cross-mode counter equality and one-count-per-load/store on ~4e4 / 6e5 programs; assembler preloads and ~3e3 / 5e4 texts in both modes through the real parser. the inspected simulation's accounting against a never-inspected shadow. 0.5 % of the histories are marathons of 260-4400 operations. 3/3 mutants, 20/21 seeded changes caught (the other one changes residency after a rejected access, which the quantifier excludes).",
                 "Trusted: RefCache (DESIGN 5.3). After rejected accesses and uncounted reads the reference is re-synchronised from the implementation (counted in evidence)."),
         "C10": ("Exploration (weak fit, see DESIGN 7): independent LRU (timestamps) / PLRU (explicit tree) against observed touches, fills and get_repr() in ~6e4 / 9e5 cache "
-                "histories, plus ~6e4 / 9e5 direct policy walks for up to 16 ways. Sampling of policy states, not the exhaustive exploration the property text suggests; the same model on the instruction-cache system incl. reset and the option wiring of the architectural state (~2e4 / 3e5 walks). 3/3 mutants, 17/18 seeded changes caught (the other one changes what an uncounted read does, which no property states).",
+                "histories, plus ~6e4 / 9e5 direct policy walks for up to 16 ways. Sampling of policy states, not the exhaustive exploration the property text suggests; the same model on the instruction-cache system incl. reset and the option wiring of the architectural state (~2e4 / 3e5 walks). 0.5 % of the histories and walks are marathons of 260-4400 operations. 3/3 mutants, 20/21 seeded changes caught (the other one changes what an uncounted read does, which no property states).",
                 "Trusted: RefPolicy. The in-hierarchy oracle follows the implementation's residency and models only the policy."),
         "C11": ("Exploration: ~3e4 / 5e5 programs with a random instruction cache in both modes (object identity of the fetched instruction, results and tick count equal to the "
                 "uncached run, accesses == independently derived fetch stream, hits and resident blocks == read-only reference cache, penalty identity) and ~2.5e3 / 4e4 reload episodes "
-                "through load_program on started simulations, a direct walk of the instruction-cache system and ~4e3 / 7e4 assembler texts with the instruction cache off and on; penalty identity after reloads. 4/4 mutants, 18/18 seeded changes caught.",
+                "through load_program on started simulations, a direct walk of the instruction-cache system and ~4e3 / 7e4 assembler texts with the instruction cache off and on; penalty identity after reloads; fetch-walk marathons of up to 4400 fetches into one set. 4/4 mutants, 21/21 seeded changes caught.",
                 "Trusted: the spy on read_instruction (the fetches really performed), the read-only reference cache."),
         "C12": ("Exploration: state invariant (write-through: backing == logical, resident == backing; write-back: resident == logical, non-resident => backing == logical; memory "
-                "table == backing store) checked after every operation of ~1e5 / 1.6e6 histories with rejected accesses, and at the end of ~1.5e4 / 2.5e5 programs in both modes against the run without the cache. 2/2 mutants, 18/18 seeded changes caught.",
+                "table == backing store) checked after every operation of ~1e5 / 1.6e6 histories with rejected accesses, and at the end of ~1.5e4 / 2.5e5 programs in both modes against the run without the cache; marathons of 260-4400 operations (swept completely every 40 operations and at the end). 2/2 mutants, 21/21 seeded changes caught.",
                 "Trusted: byte-map model, white-box reads."),
         "C13": ("Exploration: ~6.5e3 / 1.1e5 driver episodes (ported web-UI event loop with batch overshoot, resets, settings changes while running, clock jumps; raw API calls incl. "
                 "run()) on single-cycle, five-stage and TOY simulations; the used simulation must stay observably equal to one created fresh at the last load and advanced by the effective "
-                "steps; every load (also failing ones) is compared with the same load on a fresh simulation (in process and in a clean-room process). 5/5 mutants, 17/18 seeded changes caught (the other one needs a deep copy of a running simulation).",
+                "steps; every load (also failing ones) is compared with the same load on a fresh simulation (in process and in a clean-room process). 5/5 mutants, 20/21 seeded changes caught (the other one needs a deep copy of a running simulation).",
                 "Trusted: the Python port of the JS driver (a wrong port only wastes effort: every sequence is a legal API use), snapshot = results of all inspection functions."),
         "C15": ("Exploration (load clause: weak fit): ~3e4 / 5e5 programs with a planned faulting instruction in both modes (type, address, text of every run-time error) and ~5.5e3 / "
-                "9e4 typing/load episodes whose texts come from seeded edits incl. literal-site and unicode mutations, classified by the real get_last_error(). Found D3 and D5 (fixed). 4/4 mutants, 18/18 seeded changes caught.",
+                "9e4 typing/load episodes whose texts come from seeded edits incl. literal-site and unicode mutations, classified by the real get_last_error(). About 1 % of the API loads are texts of 500-2100 instructions with branches across all of them. Found D3 and D5 (fixed). 4/4 mutants, 21/21 seeded changes caught.",
                 "Trusted: line counting by '\\n' (generated texts contain no other separator). 'For every input text' remains a universal over inputs that sampling cannot close."),
         "C16": ("Exploration: ~6e3 / 1e5 episodes; the inspected simulation (syncAll after every handler / random subsets and repetitions of every inspection function) must stay "
-                "observably equal, wall-clock fields under the virtual clock included, to a deep copy of a shadow that received the identical history minus all inspections; process-wide state fingerprinted around inspection calls. 3/3 mutants, 18/18 seeded changes caught.",
+                "observably equal, wall-clock fields under the virtual clock included, to a deep copy of a shadow that received the identical history minus all inspections; process-wide state fingerprinted around inspection calls; array-sweep programs put hundreds of stores between two inspections. 3/3 mutants, 21/21 seeded changes caught.",
                 "Trusted: copy.deepcopy is side-effect free; snapshot = results of all inspection functions + counters."),
         "C18": ("Exploration (weak fit): ~1.2e5 / 1.8e6 histories of reads/writes of all widths on the flat memory in RISC-V and TOY configuration incl. aliases many periods of 2^32 "
-                "away, boundary and out-of-range accesses, against a cell map; the memory table against the same map. 2/2 mutants, 14/18 seeded changes caught (the other four leave the flat memory intact and break the five-stage store path or the factory wiring; C02 / C03 / C09 / C11 report them).",
+                "away, boundary and out-of-range accesses, against a cell map; the memory table against the same map. 0.5 % of the histories are marathons of 260-4400 operations over up to 3000 cells. 2/2 mutants, 17/21 seeded changes caught (the other four leave the flat memory intact and break the five-stage store path or the factory wiring; C02 / C03 / C09 / C11 report them).",
                 "Trusted: the cell-map model. A write only partially outside the range may tear (old-or-new accepted, counted in evidence)."),
         "C20": ("Exploration: ~7e3 / 1.2e5 TOY episodes mixing step / first / second / single_step in valid and invalid orders and the UI's single/double-step buttons against a "
-                "whole-step shadow at every instruction boundary; rejected calls must leave the snapshot unchanged. 3/3 mutants, 16/18 seeded changes caught (the other two need a non-default "
+                "whole-step shadow at every instruction boundary; rejected calls must leave the snapshot unchanged. 3/3 mutants, 19/21 seeded changes caught (the other two need a non-default "
                 "memory size and a run-time fault, outside the property's quantifier).",
                 "Trusted: snapshot = results of all TOY inspection functions + counters; wall-clock fields excluded."),
     }
